@@ -16,7 +16,7 @@ RULE = (
     "Base listings are real objdump output for generated objects/blobs and rendered synthetic listings. 1-6 presentation edits (kinds drawn first) are applied at drawn "
     "positions to a structured copy of the listing: add/remove/rename symbol label lines; remove/alter <sym+off> annotations after address operands; remove/alter/add "
     "'# ...' comments; add/remove blank lines; add/remove/rename section header lines; remove/alter/add the file-format header; leading spaces 0-12; byte column "
-    "content and length 1-7 with objdump's padding rule; add/remove byte-continuation lines. Oracle (metamorphic): all_instructions_string and the all-matches lists of 3 rules "
+    "content and length (1-7 bytes as objdump wraps by default, 8-13 on one line as --insn-width prints) with objdump's padding rule; comments that end in a colon or look like a section header; every stream comparison is repeated with valid_addr_range and a sections list configured; add/remove byte-continuation lines. Oracle (metamorphic): all_instructions_string and the all-matches lists of 3 rules "
     "derived from the base listing are identical before and after. Non-trivial: >= 2 distinct edit kinds actually applied and the listing has >= 1 annotated branch or comment; "
     "distinct by hash of (base, edited)."
 )
@@ -25,7 +25,7 @@ EDITS = ["label-add", "label-remove", "label-rename", "annot-remove", "annot-alt
          "section-add", "section-remove", "section-rename", "strip-all-blank", "strip-all-labels", "strip-all-sections", "format-remove", "format-alter", "format-add", "indent", "bytes-content", "bytes-length", "cont-add", "cont-remove"]
 FLOORS = {f"edit={e}": 0.02 for e in EDITS}
 FLOORS.update({"kinds>=2": 0.4, "edit=format-add": 0.004})
-NAMES = ["see file format notes", "main", "_start", "f@plt", ".text", "foo+0x10", "_ZN3foo3barEv", "foo(int)", "operator new(unsigned long)", "x", "L1", "data_16", "sym.with.dots"]
+NAMES = ["see file format notes", "main", "_start", "f@plt", ".text", "foo+0x10", "_ZN3foo3barEv", "foo(int)", "operator new(unsigned long)", "x", "L1", "data_16", "sym.with.dots", "null check:", "0x2000 <main>:", "note: see below", "Disassembly of section .text:"]
 INST = re.compile(r"^(\s*)([0-9a-f]+):\t((?:[0-9a-f]{2} )+)(\s*)\t(\S.*)$")
 
 
@@ -148,8 +148,9 @@ def apply_edits(lines, edits):
             m = INST.match(lines[i])
             nb = len(m.group(3)) // 3
             if k == "bytes-length":
-                nb = 1 + e["n"] % 7
-            hx = e["hex"]
+                # 1-7 bytes as objdump wraps by default; 8-13 on one line as `objdump --insn-width=N` prints them
+                nb = 1 + e["n"] % 7 if e["n"] < 7 else 1 + e["n"]
+            hx = e["hex"] * 2
             bs = " ".join(hx[2 * q: 2 * q + 2] for q in range(nb)) + " "
             lines[i] = fmt_inst(m.group(1), m.group(2), bs, m.group(5))
         elif k == "cont-add":
@@ -211,12 +212,13 @@ def evaluate(case):
         modes = [("str", "first", False)] if first else []
         if first:
             # the stream again with the address-range observer installed (same option on both sides)
-            rp2 = sc.write("c16_rule_range.yaml", jasm_io.rule_text(jasm_io.make_doc(rule, config={"valid_addr_range": {"min": "0x1000", "max": "0x2000"}})))
+            # and a `sections` list, which concerns binaries only and must not make section headers of a listing matter
+            rp2 = sc.write("c16_rule_range.yaml", jasm_io.rule_text(jasm_io.make_doc(rule, config={"valid_addr_range": {"min": "0x1000", "max": "0x2000"}, "sections": [".text", ".init"]})))
             a = jasm_io.match_files(rp2, p0, mode="str")
             b = jasm_io.match_files(rp2, p1, mode="str")
             ev.subcases += 1
             if "inconclusive" not in (a[0], b[0]) and a[:2] != b[:2]:
-                ev.dev("result-changed-by-presentation", mode="str", with_config="valid_addr_range", edits=applied, **_first_diff(a, b))
+                ev.dev("result-changed-by-presentation", mode="str", with_config="valid_addr_range+sections", edits=applied, **_first_diff(a, b))
                 break
         first = False
         for mode, search, only in modes + [("list", "all", False)]:
